@@ -26,6 +26,8 @@ MENUS = [
     ("delay", [1, 0]),
     ("era", ["2022", "2018"]),
     ("latency", [0, 1800]),
+    # another tabular environment, over the tables of the OTHER era, was built earlier in the same process
+    ("prior", [None, "other-era"]),
 ]
 
 
@@ -210,6 +212,13 @@ def independent_X(cfg, Xin, Yin, env):
 
 
 def run_config(cfg):
+    if cfg.get("prior"):
+        other = {n: a[0] for n, a in MENUS}
+        other.update({"window": 1, "stride": None, "era": "2018" if cfg.get("era", "2022") == "2022" else "2022"})
+        try:
+            build(other)
+        except Exception:
+            pass
     try:
         env, Xin, Yin, rate, idx = build(cfg)
     except Exception as ex:
@@ -321,7 +330,7 @@ def run(tier, **kw):
     rep.set("exhaustive", True)
     rep.set("rule", "window x stride fully crossed (quick {1,2,3}x{none,2}; thorough {1..4}x{none,1,2,3} plus windows up to 30 on a 70-day table) times every "
                     "assignment of {price-table shape (holiday row, weekend row), feature-index shape (same, earlier, later, every other row, extra rows), NaN pattern, "
-                    "1-2 assets, transformer (none, z-score, yeo-johnson), clip (5,1,0.5), spread, rate series, start/end bound, two folds, delay} with at most "
+                    "1-2 assets, an environment of the other era built first in the same process, transformer (none, z-score, yeo-johnson), clip (5,1,0.5), spread, rate series, start/end bound, two folds, delay} with at most "
                     "`deviation_bound_completed` non-default choices, on tables of 14 business days spanning NYSE's 2022-01-17 holiday (rule-based) or its 2018-12-05 one-off closure; non-trivial = distinct "
                     "configuration that executed at least one step")
     rep.set("samples", [cs[0], cs[len(cs) // 3], cs[-1]])
